@@ -60,12 +60,23 @@ ERA_VERSIONS = [47, 340, 384, 385, 390, 391, 393, 706, 707, 754, 757]
 
 
 class Tok(object):
-    def __init__(self, name):
+    """stand-in token; fails = status codes of the session service's
+    errors for the first len(fails) join calls (None: no status code)"""
+
+    def __init__(self, name, fails=()):
         self.profile = type('P', (), {'name': name})()
         self.joins = []
+        self.fails = list(fails)
+        self.raised = []
 
     def join(self, server_hash):
         self.joins.append(server_hash)
+        if len(self.joins) <= len(self.fails):
+            from minecraft.exceptions import YggdrasilError
+            e = YggdrasilError('session service error',
+                               status_code=self.fails[len(self.joins) - 1])
+            self.raised.append(e)
+            raise e
         return True
 
 
@@ -150,7 +161,8 @@ def login_case(ctx, case):
                      'end': 'disconnect' if prior[1] == 'user' else 'eof'}}))
         ctx.label('prior_session_' + prior[1])
     world = vnet.World(servers=scripts, plan=plan)
-    tok = Tok('Prof') if case.get('token') else None
+    tok = Tok('Prof', case.get('join_fails') or ()) \
+        if case.get('token') else None
     reactor_seen = []
     with vnet.installed(world):
         conn, o = servers.make_connection(
@@ -241,6 +253,31 @@ def login_case(ctx, case):
         return
     if srv.errors:
         ctx.fail('login', 'L2L3-malformed-client-stream', case, srv.errors)
+        return
+    if tok is not None and tok.raised:
+        # the session service refused the join: whatever the client then
+        # does (give up and report that error, or try again), every join it
+        # ever sends names this login's hash - one value, the reference one
+        # whenever the server got to know the secret
+        ctx.label('join_refused_by_session_service')
+        if len(set(tok.joins)) != 1:
+            ctx.fail('login', 'L5-session-join-hash-varies', case,
+                     tok.joins, 'the same hash in every attempt')
+            return
+        if srv.secret is not None and enc is not None:
+            ref = rsa.java_hex(hashlib.sha1(
+                enc[3].encode('utf-8') + srv.secret +
+                srv.enc_key_bytes).digest())
+            if tok.joins[0] != ref:
+                ctx.fail('login', 'L5-session-join', case, tok.joins, [ref])
+                return
+        if len(tok.joins) <= len(tok.fails):
+            # gave up: the service's error is what gets reported
+            if not any(e is x for e in excs for x in tok.raised):
+                ctx.fail('login', 'L6-join-error-not-reported', case,
+                         [repr(e) for e in excs], repr(tok.raised[-1]))
+            if not world.links[-1].closed_by_client():
+                ctx.fail('login', 'L6-link-left-open', case)
         return
     # L1
     if enc is not None and srv.enc_response is not None:
@@ -468,6 +505,8 @@ def case_strategy(versions):
         return st.fixed_dictionaries({
             'version': st.just(v), 'steps': steps_strategy(v),
             'terminal': terminal_strategy(), 'token': st.booleans(),
+            'join_fails': st.sampled_from([None, None, None, [503], [500],
+                                           [403], [None], [502, 503]]),
             'takeover': st.sampled_from([False, False, True, 'explicit_empty',
                                          'short', 'short_empty']),
             'plan': st.one_of(st.just('whole'), st.just('one'),
